@@ -641,7 +641,7 @@ func c01eWorklist(c *Ctx) {
 		}
 		role := finalRole(c, fn, ci)
 		use := chunkLastUse(ci)
-		bb := c.fieldAtUse(fn, ci.a, "branchBehavior", use)
+		bb := c.nodePath(fn, ci.a, use, "branchBehavior")
 		pos := c.W.Pos(ci.a.Pos())
 		cur := strings.SplitN(ci.stmts, ".statements[:", 2)[0]
 		switch role {
@@ -653,17 +653,8 @@ func c01eWorklist(c *Ctx) {
 			a, ok := use.(*ssa.Store)
 			_ = a
 			_ = ok
-			dest := ""
-			// branchBehavior holds a breakContext allocation
-			for _, ref := range *ci.a.Referrers() {
-				if fa, ok := ref.(*ssa.FieldAddr); ok && fieldName(fa.X.Type(), fa.Field) == "branchBehavior" {
-					for _, r2 := range *fa.Referrers() {
-						if st, ok := r2.(*ssa.Store); ok && st.Addr == ssa.Value(fa) {
-							dest, _ = c.structFieldOf(fn, st.Val, "emitter", "breakContext", "destChunkID", st)
-						}
-					}
-				}
-			}
+			// branchBehavior holds a breakContext (stored in place or handed to a constructor helper)
+			dest := c.nodePath(fn, ci.a, use, "branchBehavior", "destChunkID")
 			field, m := ".ScopeStatment", retMap
 			what := "break jumps to the recorded return id of its scope statement"
 			if role == "ContinueStatement" {
